@@ -86,8 +86,12 @@ func TransformModuleFilesToModel( //nolint:funlen,gocognit,cyclop
 				transformErrors = multierror.Append(transformErrors, syntaxError.Errors...)
 			}
 
+			verifTraceMerge("file", module.Name, "syntax")
+
 			continue
 		}
+
+		verifTraceMerge("file", module.Name, "ok")
 
 		for _, typeDef := range mdl.GetTypeDefinitions() {
 			// the extensions map is keyed by type name: compare the definition itself, so that a file
@@ -105,6 +109,8 @@ func TransformModuleFilesToModel( //nolint:funlen,gocognit,cyclop
 					Column: col,
 				})
 
+				verifTraceMerge("type", typeDef.GetType(), "dup")
+
 				continue
 			}
 
@@ -114,6 +120,8 @@ func TransformModuleFilesToModel( //nolint:funlen,gocognit,cyclop
 				}
 
 				extendedTypeDefs[module.Name] = append(extendedTypeDefs[module.Name], typeDef)
+
+				verifTraceMerge("type", typeDef.GetType(), "ext")
 
 				continue
 			}
@@ -128,9 +136,11 @@ func TransformModuleFilesToModel( //nolint:funlen,gocognit,cyclop
 					Msg:  "file is not a module",
 					File: module.Name,
 				})
+				verifTraceMerge("type", typeDef.GetType(), "notmodule")
 				continue
 			}
 			rawTypeDefs = append(rawTypeDefs, typeDef)
+			verifTraceMerge("type", typeDef.GetType(), "new")
 		}
 
 		conditionNames := make([]string, 0, len(mdl.GetConditions()))
@@ -153,6 +163,8 @@ func TransformModuleFilesToModel( //nolint:funlen,gocognit,cyclop
 					Column: col,
 				})
 
+				verifTraceMerge("cond", name, "dup")
+
 				continue
 			}
 
@@ -162,6 +174,8 @@ func TransformModuleFilesToModel( //nolint:funlen,gocognit,cyclop
 					File: module.Name,
 				})
 
+				verifTraceMerge("cond", name, "notmodule")
+
 				continue
 			}
 
@@ -169,6 +183,8 @@ func TransformModuleFilesToModel( //nolint:funlen,gocognit,cyclop
 				File: module.Name,
 			}
 			conditions[name] = condition
+
+			verifTraceMerge("cond", name, "new")
 		}
 	}
 
@@ -183,6 +199,7 @@ func TransformModuleFilesToModel( //nolint:funlen,gocognit,cyclop
 		}
 
 		delete(extendedTypeDefs, filename)
+		verifTraceMerge("extfile", filename)
 
 		lines := moduleFiles[filename]
 
@@ -200,6 +217,8 @@ func TransformModuleFilesToModel( //nolint:funlen,gocognit,cyclop
 					Line:   line,
 					Column: col,
 				})
+
+				verifTraceMerge("exttype", typeDef.GetType(), "missing")
 
 				continue
 			}
@@ -225,8 +244,12 @@ func TransformModuleFilesToModel( //nolint:funlen,gocognit,cyclop
 
 				rawTypeDefs[originalIndex] = original
 
+				verifTraceMerge("exttype", typeDef.GetType(), "adopt")
+
 				continue
 			}
+
+			verifTraceMerge("exttype", typeDef.GetType(), "merge")
 
 			existingRelationNames := []string{}
 			for name := range original.GetRelations() {
@@ -253,6 +276,8 @@ func TransformModuleFilesToModel( //nolint:funlen,gocognit,cyclop
 						Column: col,
 					})
 
+					verifTraceMerge("extrel", typeDef.GetType(), name, "dup")
+
 					continue
 				}
 
@@ -271,6 +296,8 @@ func TransformModuleFilesToModel( //nolint:funlen,gocognit,cyclop
 				}
 				original.Relations[name] = relation
 				original.Metadata.Relations[name] = relationsMeta
+
+				verifTraceMerge("extrel", typeDef.GetType(), name, "add")
 			}
 		}
 	}
